@@ -70,7 +70,10 @@ def enumerate_cases(tier, shard=0, nshards=1):
     # the same cycles with every reference inside the CONDITION of an IF
     # (conditions are always evaluated: the cycle must be reported, not
     # turned into an error value)
-    out.extend([dict(c, mode='cond') for c in out])
+    out.extend([dict(c, mode='cond') for c in out] +
+               # ... and with a postfix % in every formula text (=A2*100%+1):
+               # the text of a failing formula is part of the report
+               [dict(c, mode='pct') for c in out])
     # long cycles / long prefixes (well inside Python's recursion limit)
     for length, prefix in ((10, 0), (26, 3), (27, 0), (40, 10), (1, 60),
                            (60, 0), (2, 50), (102, 0), (150, 20), (200, 0)):
@@ -493,6 +496,10 @@ def judge(case):
     for c, refs in cells.items():
         d[_full(c)] = (render_pass if passmode else render)(
             refs, _full(c).split('!')[0])
+        if case.get('mode') == 'pct':
+            d[_full(c)] = '=' + '+'.join(
+                (p if p == '1' else p + '*100%')
+                for p in d[_full(c)][1:].split('+'))
         if condmode:
             # =IF(<sum of the references>+1>0,1,2): with positive constants
             # every acyclic cell is 1
